@@ -359,6 +359,13 @@ def rule_memo(rep: Report, rid="C15.memo") -> None:
         for x in ast.walk(fi.node):
             if isinstance(x, ast.Attribute) and isinstance(x.ctx, ast.Load) and isinstance(x.value, ast.Name) and x.value.id in ps and x.attr in late:
                 stale.append(f"{x.value.id}.{x.attr} (line {x.lineno})")
+        if "cached_property" not in memo and fi.cls is not None and not fi.is_static and ps:
+            # a memoised *method* remembers its answer per (self, arguments): what it reads from a public attribute of self may have
+            # been rebound by the caller since (``parser.ast_builder = other``) - the package's own stores are not the only ones
+            for x in ast.walk(fi.node):
+                if isinstance(x, ast.Attribute) and isinstance(x.ctx, ast.Load) and isinstance(x.value, ast.Name) and x.value.id == ps[0] \
+                        and not x.attr.startswith("_") and fi.cls.find_method(x.attr) is None and x.attr not in late:
+                    stale.append(f"{x.value.id}.{x.attr} (line {x.lineno}; a public attribute the caller may rebind)")
         if stale and "cached_property" in memo and fi.cls is not None:
             # a remembered value may depend on attributes that change later when every function that stores one of them also
             # drops the remembered value afterwards (``self.__dict__.pop(name, None)``, ``del self.__dict__[name]``, ``del self.name``,
@@ -389,11 +396,22 @@ def rule_memo(rep: Report, rid="C15.memo") -> None:
                         if st_.lineno <= last_store:
                             continue
                         for y in ast.walk(st_):
-                            if isinstance(y, ast.Call) and isinstance(y.func, ast.Attribute) and y.func.attr == "pop" and isinstance(y.func.value, ast.Attribute) \
-                                    and y.func.value.attr == "__dict__" and isinstance(y.func.value.value, ast.Name) and y.func.value.value.id == me \
-                                    and y.args and isinstance(y.args[0], ast.Constant) and y.args[0].value == fi.name and isinstance(st_, ast.Expr):
+                            inst_dict = isinstance(y, ast.Call) and isinstance(y.func, ast.Attribute) and y.func.attr == "pop" and (
+                                (isinstance(y.func.value, ast.Attribute) and y.func.value.attr == "__dict__" and isinstance(y.func.value.value, ast.Name)
+                                 and y.func.value.value.id == me)
+                                or (isinstance(y.func.value, ast.Call) and isinstance(y.func.value.func, ast.Name) and y.func.value.func.id == "vars"
+                                    and len(y.func.value.args) == 1 and isinstance(y.func.value.args[0], ast.Name) and y.func.value.args[0].id == me))
+                            if inst_dict and len(y.args) == 2 and isinstance(y.args[0], ast.Constant) and y.args[0].value == fi.name and isinstance(st_, ast.Expr):
                                 dropped = True
-                            if isinstance(st_, ast.Delete) and any(
+                        # ``with suppress(AttributeError): del self.<name>`` - a block of its own (a second ``del`` in the same block
+                        # would be skipped when the first one raises)
+                        if isinstance(st_, ast.With) and len(st_.items) == 1 and isinstance(st_.items[0].context_expr, ast.Call) \
+                                and getattr(st_.items[0].context_expr.func, "id", getattr(st_.items[0].context_expr.func, "attr", "")) == "suppress" \
+                                and len(st_.body) == 1 and isinstance(st_.body[0], ast.Delete) and len(st_.body[0].targets) == 1:
+                            t = st_.body[0].targets[0]
+                            if isinstance(t, ast.Attribute) and t.attr == fi.name and isinstance(t.value, ast.Name) and t.value.id == me:
+                                dropped = True
+                            if False and isinstance(st_, ast.Delete) and any(
                                     (isinstance(t, ast.Subscript) and isinstance(t.value, ast.Attribute) and t.value.attr == "__dict__" and isinstance(t.slice, ast.Constant)
                                      and t.slice.value == fi.name) or (isinstance(t, ast.Attribute) and t.attr == fi.name and isinstance(t.value, ast.Name) and t.value.id == me)
                                     for t in st_.targets):
